@@ -9,6 +9,8 @@ import (
 	"regexp"
 	"sort"
 	"strings"
+
+	"github.com/coreruleset/crs-toolchain/v2/utils"
 )
 
 type inclusionLine struct {
@@ -62,6 +64,7 @@ func replaceSuffixes(inputLines *bytes.Buffer, suffixReplacements []suffixReplac
 
 	var sb strings.Builder
 	scanner := bufio.NewScanner(inputLines)
+	scanner.Buffer(nil, utils.MaxLineLength)
 	scanner.Split(bufio.ScanLines)
 	skipRegex := regexp.MustCompile(`^(?:##!|\s*$)`)
 	for scanner.Scan() {
@@ -90,6 +93,7 @@ func removeExclusions(parser *Parser, excludeFileNames []string, includeMap map[
 		logger.Debug().Msgf("Processing exclusions from %s", fileName)
 		excludeContent, _ := parseFile(parser, fileName, definitions)
 		scanner := bufio.NewScanner(excludeContent)
+		scanner.Buffer(nil, utils.MaxLineLength)
 		scanner.Split(bufio.ScanLines)
 		for scanner.Scan() {
 			exclusion := scanner.Text()
@@ -102,6 +106,7 @@ func removeExclusions(parser *Parser, excludeFileNames []string, includeMap map[
 func buildinclusionLineMap(parser *Parser, includeFileName string) (inclusionLineMap, map[string]string) {
 	includeContent, definitions := parseFile(parser, includeFileName, nil)
 	includeScanner := bufio.NewScanner(includeContent)
+	includeScanner.Buffer(nil, utils.MaxLineLength)
 	includeScanner.Split(bufio.ScanLines)
 	includeMap := make(inclusionLineMap, 100)
 	index := 0
